@@ -289,6 +289,62 @@ pub fn record_expand(a: &HashMap<String, String>) -> i32 {
     0
 }
 
+// ------------------------------------------------------------------ C17 / C18: extract_feature_set
+
+/// `Trainer::extract_feature_set` as a whole: the three sections of rewrite.def applied to the
+/// word's OWN feature list (unchanged when no rule of the section matches), then the templates.
+/// `simple`: every template is one plain reference (%F[k] / %L[k] / %R[k]), so that the expanded
+/// strings show the rewritten cells themselves.
+pub fn record_fsets(a: &HashMap<String, String>) -> i32 {
+    let seed: u64 = a.get("seed").and_then(|s| s.parse().ok()).unwrap_or(1);
+    let n: usize = a.get("n").and_then(|s| s.parse().ok()).unwrap_or(200);
+    let mut rng = Rng::new(seed ^ 0xF5E7);
+    let vals = ["N", "V", "名詞", "x", "y", "q,r", "*"];
+    let mut f = open(a);
+    for i in 0..n {
+        let simple = i % 2 == 0;
+        let t = if simple {
+            let k = 2 + rng.below(3);
+            let one = |tag: &str, j: usize| json!([{"k": "lit", "v": format!("{tag}{j}:")}, {"k": "ref", "i": j}]);
+            json!({"uni": (0..k).map(|j| one("U", j)).collect::<Vec<_>>(),
+                   "left": (0..k).map(|j| one("B", j)).collect::<Vec<_>>(),
+                   "right": (0..k).map(|j| one("B", j)).collect::<Vec<_>>()})
+        } else {
+            let same = rng.chance(1, 3);
+            gen_templates(&mut rng, same)
+        };
+        // three sections that differ (the bundled rewrite.def has three identical ones)
+        let mut rules = crate::train::gen_rules(&mut rng);
+        if rng.chance(1, 2) {
+            // a unigram rule that changes a column the other sections look at
+            rules["uni"] = json!([{"pat": [{"k": "any"}], "out": [{"k": "text", "v": "Z"}, {"k": "ref", "i": 1}]}]);
+        }
+        let nrows = 1 + rng.below(6);
+        let rows: Vec<(Vec<String>, u32)> = (0..nrows).map(|_| {
+            let len = 1 + rng.below(4);
+            ((0..len).map(|_| rng.pick(&vals).to_string()).collect(), rng.below(4) as u32)
+        }).collect();
+        let fdef = feature_def(&t);
+        let rdef = crate::train::rewrite_def3(&rules);
+        let texts: Vec<(String, u32)> = rows.iter().map(|(c, k)| (crate::train::cells_text(c), *k)).collect();
+        let rows_json: Vec<Value> = rows.iter().map(|(c, k)| json!({"cells": c, "cate": k})).collect();
+        let r = catch_unwind(AssertUnwindSafe(|| vibrato::trainer::Trainer::verif_feature_sets(&fdef, &rdef, &texts)));
+        let ev = match r {
+            Ok(Ok((sets, maps))) => {
+                let tab = |m: &Vec<(String, u32)>| -> Value { Value::Array(m.iter().map(|(s, i)| json!({"s": s, "id": i})).collect()) };
+                let o = |v: &Vec<Option<u32>>| -> Vec<u32> { v.iter().map(|x| x.unwrap_or(0)).collect() };
+                json!({"ev": "fset", "simple": simple, "T": t, "rules": rules, "rows": rows_json,
+                       "ids": sets.iter().map(|(u, l, r)| json!({"u": u, "l": o(l), "r": o(r)})).collect::<Vec<_>>(),
+                       "uni": tab(&maps[0]), "left": tab(&maps[1]), "right": tab(&maps[2])})
+            }
+            Ok(Err(e)) => json!({"ev": "fset_err", "T": t, "rules": rules, "msg": e.to_string()}),
+            Err(_) => json!({"ev": "panic", "op": {"op": "fset"}, "T": t, "rules": rules, "rows": rows_json}),
+        };
+        writeln!(f, "{}", ev).unwrap();
+    }
+    0
+}
+
 // ------------------------------------------------------------------ C19
 
 fn corpus_event(lines: &Vec<Vec<String>>, final_nl: bool, extra: Value) -> Value {
